@@ -54,9 +54,16 @@ Value& MINExpression::value(Context & ctx) const
       v = Value(Value::type_integer);
       break;
     case Type::INTEGER:
+      if (a0.isNull() || a1.isNull())
+      {
+        v = Value(Value::type_integer);
+        break;
+      }
       v = Value(Integer(std::min<int64_t>(*a0.integer(), *a1.integer())));
       break;
     case Type::NUMERIC:
+      if (a0.isNull() || a1.isNull())
+        break;
       v = Value(Numeric(std::min<double>((double)*a0.integer(), *a1.numeric())));
       break;
     default:
@@ -70,9 +77,13 @@ Value& MINExpression::value(Context & ctx) const
       v = Value(Value::type_numeric);
       break;
     case Type::INTEGER:
+      if (a0.isNull() || a1.isNull())
+        break;
       v = Value(Numeric(std::min<double>(*a0.numeric(), (double)*a1.integer())));
       break;
     case Type::NUMERIC:
+      if (a0.isNull() || a1.isNull())
+        break;
       v = Value(Numeric(std::min<double>(*a0.numeric(), *a1.numeric())));
       break;
     default:
